@@ -447,8 +447,15 @@ func uIdsCase(o *uOut, r *u.Rng) {
 		o.fail("uspec/ids", fmt.Sprintf("a second call returns %v", again), detail)
 	}
 	afterTerm := uTerm(ps, ext.TransportParameters)
-	// what a fingerprinter canonicalising the wire sees
-	if body, err := uWireOf(ext); err != nil {
+	// the method is a query: the spec's own list stays as the caller wrote it
+	// (fixes/C11-transport-parameter-ids-on-a-copy.patch; before it the list was shortened for good)
+	if !uSamePtrs(ext.TransportParameters, in) {
+		o.fail("uspec/ids-mutates-spec", "QUICSpec.TransportParameterIDs() changed the spec's own parameter list", detail+" now="+afterTerm)
+	}
+	// what a fingerprinter canonicalising the wire of a dial under this suppression list sees
+	wext := &tls.QUICTransportParametersExtension{TransportParameters: append(tls.TransportParameters{}, in...)}
+	quic.SuppressQUICTransportParameters(wext, sup)
+	if body, err := uWireOf(wext); err != nil {
 		o.fail("uspec/wire-mismatch", "extension does not serialise: "+err.Error(), detail)
 	} else if wps, err := fpReadParams(body); err != nil {
 		o.fail("uspec/wire-mismatch", "serialised extension does not parse: "+err.Error(), detail+fmt.Sprintf(" bytes=%x", body))
